@@ -29,7 +29,7 @@ ASSUMPTIONS = [
     "waitclose may either return or raise the documented EOFError for a channel the peer had closed properly before the cut",
 ]
 MINIMUM = {"cuts": 3000, "waiters_checked": 6000, "kills": 4, "worker_survivors": 4}
-SHARD_TIMEOUT = {"quick": 220, "thorough": 2400}
+SHARD_TIMEOUT = {"quick": 150, "thorough": 2400}
 M = codec.MSG
 
 
